@@ -159,7 +159,7 @@ func (s sink) SendMsg(msg hwebsocket.Msg) {
 }
 
 type conn struct {
-	vc   *hagallws.VerifConn
+	vc   handlerConn
 	open bool
 }
 
@@ -179,6 +179,8 @@ type runner struct {
 	quiet    time.Duration
 	Stats    map[string]int
 }
+
+var drainTimeouts int
 
 func validIndep(s *Sub) (hashOK, sigOK bool) {
 	k := crypto.Keccak256(s.R)
@@ -219,7 +221,7 @@ func (r *runner) conn(id int) *conn {
 		ReceiptChan:             r.rchan,
 		PrivateKey:              serverKey,
 	}
-	c := &conn{vc: hagallws.NewVerifConn(rh, fmt.Sprintf("client-%d", id)), open: true}
+	c := &conn{vc: newConn(rh, fmt.Sprintf("client-%d", id)), open: true}
 	r.conns[id] = c
 	return c
 }
@@ -334,12 +336,14 @@ func (r *runner) drain() {
 		if done && time.Since(stableSince) >= r.quiet {
 			break
 		}
-		if time.Since(t0) > r.deadline && time.Since(stableSince) >= r.quiet {
-			timeout = 1
-			break
+		// a run that does not settle is given 5 deadlines once (a loaded machine), then one
+		limit := 5 * r.deadline
+		if drainTimeouts > 0 {
+			limit = r.deadline
 		}
-		if time.Since(t0) > 4*r.deadline {
+		if time.Since(t0) > limit {
 			timeout = 1
+			drainTimeouts++
 			break
 		}
 		time.Sleep(time.Millisecond)
@@ -374,7 +378,7 @@ func runHist(h *Hist, out *bufio.Writer, svc *service, deadline, quiet time.Dura
 	r := &runner{h: h, out: out, rchan: make(chan ncsclient.ReceiptPayload, h.Cap), store: &models.SessionStore{},
 		conns: map[int]*conn{}, svc: svc, tablesK: map[string]bool{}, tablesV: map[string]bool{},
 		deadline: deadline, quiet: quiet, Stats: stats}
-	fmt.Fprintf(out, "H %d cap=%d\n", h.ID, h.Cap)
+	fmt.Fprintf(out, "H %d cap=%d via=%s\n", h.ID, h.Cap, driveVia)
 	ok := true
 	for _, it := range h.Items {
 		if !ok {
